@@ -41,7 +41,7 @@ structure Ev where
 
 inductive Op where
   | push (prod : Nat) (v : Nat)
-  | pushthrow             -- `push` whose item constructor throws (precondition: no pop is waiting)
+  | pushthrow             -- `push` whose item constructor throws
   | pop (cons : Nat)
   | upop (c : Nat)
   | size
@@ -74,6 +74,7 @@ structure State where
   served : List Ev := []        -- every decision about a pop future, in lock order
   completed : List Ev := []     -- resolutions performed so far, in order
   unblocks : List (Pop × Nat) := []   -- successful `unblock_pop(c)` calls: (pop that was failed, c)
+  throws : List Pop := []       -- pops failed by a `push` whose item constructor threw
   deriving Repr
 
 def init : State := {}
@@ -90,13 +91,20 @@ def stepPush (s : State) (p v : Nat) : State × Res :=
       ({ s with items := s.items ++ [⟨s.nextPush, p, v⟩], nextPush := s.nextPush + 1,
                 pushed := s.pushed ++ [⟨s.nextPush, p, v⟩] }, Res.push s.nextPush false)
 
-/-- `queue::push` whose item constructor throws (queue.h:157: `_queue.emplace` throws inside the lock region, the
-`unique_lock` releases the lock during unwinding, `std::deque::emplace_back` has no effect when it throws): nothing
-changes, the exception leaves `push`.  Precondition: no pop is waiting - with a parked promise the constructor runs
-inside `promise::operator()` (queue.h:154) *after* the promise was moved out of `_awaiters` and claimed, which is the
-promise layer's business (C01), not modelled here (`Res.bad`). -/
+/-- `queue::push` whose item constructor throws.
+No pop waiting (queue.h:157): `_queue.emplace` throws inside the lock region, `std::deque::emplace_back` has no effect
+when it throws and the `unique_lock` releases the lock during unwinding - nothing changes.
+A pop waiting (queue.h:151-154): the oldest parked promise is moved out under the lock, the lock is dropped, and
+`p(args)` constructs the item inside the future: the constructor throws after `promise::set_value` claimed the
+promise, which resolves the future *without a value* (future.h:645-653) before the exception leaves `push` - the
+waiting pop completes as canceled (`await_canceled_exception`), out of the lock, hence in flight first.
+Either way the exception reaches the caller and no item exists (`pushed`, `nextPush` unchanged). -/
 def stepPushThrow (s : State) : State × Res :=
-  if s.waiters.isEmpty then (s, Res.threw) else (s, Res.bad)
+  match s.waiters with
+  | [] => (s, Res.threw)
+  | w :: ws =>
+      ({ s with waiters := ws, inflight := s.inflight ++ [⟨w, Out.canceled⟩],
+                served := s.served ++ [⟨w, Out.canceled⟩], throws := s.throws ++ [w] }, Res.threw)
 
 /-- `queue::pop` lock region (queue.h:197-212): park the promise, or resolve it with the head -/
 def stepPop (s : State) (c : Nat) : State × Res :=
@@ -177,6 +185,15 @@ def stepPush (s : State) : State × Res :=
                 served := s.served ++ [⟨w, Out.ok⟩] }, Res.push s.nPush true)
   | [] => ({ s with sz := s.sz + 1, nPush := s.nPush + 1 }, Res.push s.nPush false)
 
+/-- mirror of `Q.stepPushThrow` (`void` has no item whose construction could throw; kept so that every operation of
+the `queue<T>` model has its image) -/
+def stepPushThrow (s : State) : State × Res :=
+  match s.waiters with
+  | [] => (s, Res.threw)
+  | w :: ws =>
+      ({ s with waiters := ws, inflight := s.inflight ++ [⟨w, Out.canceled⟩],
+                served := s.served ++ [⟨w, Out.canceled⟩] }, Res.threw)
+
 def stepPop (s : State) (c : Nat) : State × Res :=
   if s.sz = 0 then
     ({ s with waiters := s.waiters ++ [⟨s.nextPop, c⟩], nextPop := s.nextPop + 1 }, Res.pop s.nextPop none)
@@ -205,7 +222,7 @@ def stepDeliver (s : State) (k : Nat) : State × Res :=
 def stepLive (s : State) (op : Op) : State × Res :=
   match op with
   | Op.push _ _ => stepPush s
-  | Op.pushthrow => if s.waiters.isEmpty then (s, Res.threw) else (s, Res.bad)   -- (void has no item to construct)
+  | Op.pushthrow => stepPushThrow s
   | Op.pop c => stepPop s c
   | Op.upop c => stepUpop s c
   | Op.size => (s, Res.num s.sz)
